@@ -65,7 +65,8 @@ def immortal(o):
 
 def own_add(own, o, d):
     """ledger after taking (d > 0) / giving up (d < 0) |d| references to o; NULL and immortal objects do not count"""
-    return z3.If(z3.Or(o == NULL, immortal(o)), own, z3.Store(own, o, own[o] + d))
+    # one Store with a conditional increment (not a conditional between two arrays): the ledger stays a linear Store chain
+    return z3.Store(own, o, own[o] + z3.If(z3.Or(o == NULL, immortal(o)), 0, d))
 
 
 def is_exact(o, tname):
@@ -512,9 +513,19 @@ Api.f_PyTuple_New = _tuple_new
 Api.f_PyTuple_SET_ITEM = _tuple_set_item
 
 
+def newly_allocated(self, st, r):
+    """A-ALLOC (freshness): a newly allocated object is none of the objects the function holds pointers to, and no struct
+    field of an existing object points to it.  The second part is instantiated at every later field load (core.load_field)
+    against the field contents at allocation time, instead of being stated with a quantifier."""
+    known = [v for v in list(st.env.values()) + list(st.ghost.get("caller_kept", ())) if z3.is_expr(v) and v.sort() == Obj and not v.eq(r)]
+    snapshot = {f: self.ex.field_array(st, f) for f, srt in FIELD_SORTS.items() if srt == Obj}
+    return st.assume(*[r != v for v in known]).gset("allocs", st.ghost.get("allocs", ()) + ((r, snapshot),))
+
+
 def _type_generic_new(self, a, st, k):
     """A-ALLOC: allocation succeeds; the new object's fields are zero-initialised (tp_alloc)"""
     r, st2 = self.fresh_obj("newobj", st)
+    st2 = newly_allocated(self, st2, r)
     for f, srt in FIELD_SORTS.items():
         arr = self.ex.field_array(st2, f)
         zero = NULL if srt == Obj else (z3.BitVecVal(0, 32) if srt == BV32 else z3.IntVal(0))
